@@ -237,6 +237,8 @@ Section Step.
   (* the stored lines are the program's lines, none starts with ELSE *)
   Hypothesis Hjump : forall n, store_has n s = match find_line p n 0 with Some _ => true | None => false end.
   Hypothesis Hheads : forall n l, toks_get n (st_toks s) = Some l -> exists t l', l = t :: l' /\ t <> TElse.
+  (* which reference return point a model location stands for (a RETURN or a NEXT lands there) *)
+  Variable L : rpc -> location -> Prop.
   (* the statement may sit inside IF..THEN clauses: [d] is its nesting depth *)
   Variable d : nat.
   Hypothesis Hd : Nat.eqb d max_nesting = false.
@@ -256,20 +258,18 @@ Section Step.
           /\ r_frames st' = r_frames st
           /\ (typed s -> typed s')
           /\ ((r_calls st' = r_calls st /\ stack s' = stack s)
-              \/ (r_calls st' = after :: r_calls st
-                  /\ stack s' = stack s ++ [mkframe (mkloc (loc_line (loc s)) (i + length ts)) []])
+              \/ (exists pc0 l0, r_calls st' = pc0 :: r_calls st /\ stack s' = stack s ++ [mkframe l0 []] /\ L pc0 l0)
               \/ (exists fr rest cr, stack s = rest ++ [fr] /\ stack s' = rest
                                      /\ r_calls st = pc :: cr /\ r_calls st' = cr /\ loc s' = fr_ret fr))
           /\ ((r_loops st' = r_loops st /\ loops s' = loops s)
-              \/ (exists v to step,
-                    r_loops st' = rkeep v (r_loops st) ++ [mkrl v to step after]
-                    /\ loops s' = mkeep v (loops s) ++ [mkloop (mkloc (loc_line (loc s)) (i + length ts)) v to step])
+              \/ (exists v to step pc0 l0,
+                    r_loops st' = rkeep v (r_loops st) ++ [mkrl v to step pc0]
+                    /\ loops s' = mkeep v (loops s) ++ [mkloop l0 v to step] /\ L pc0 l0)
               \/ (exists v lp kept k li',
                     drop_loop v (r_loops st) = Some (lp, kept) /\ find_loop_rev v (loops s) = Some k
                     /\ nth_error (loops s) k = Some li'
-                    /\ ((r_loops st' = kept ++ [lp] /\ loops s' = firstn k (loops s) ++ [li']
-                         /\ pc = rl_body lp /\ loc s' = lp_loc li')
-                        \/ (r_loops st' = kept /\ loops s' = firstn k (loops s) /\ pc = after))))
+                    /\ ((r_loops st' = kept ++ [lp] /\ loops s' = firstn k (loops s) ++ [li'])
+                        \/ (r_loops st' = kept /\ loops s' = firstn k (loops s)))))
           /\ (exists outs, r_out st' = r_out st ++ outs /\ outputs s' = o ++ map OPrint outs)
           /\ ((pc = after /\ loc s' = mkloc (loc_line (loc s)) (i + length ts))
               \/ (exists n li' stmts, pc = (li', 0) /\ nth_error p li' = Some (n, stmts) /\ loc s' = mkloc (Some n) 0)
@@ -291,6 +291,7 @@ Section Step.
     step_outcome (exec F p stmt after li st) i ts run o.
 
   Definition steps_as (stmt : rstmt) (i : nat) (ts : list token) : Prop :=
+    L after (mkloc (loc_line (loc s)) (i + length ts)) ->
     exists f0, forall fuel, f0 <= fuel -> forall r o,
       step_result stmt i ts (evaluate_statement fuel d (at_idx s i r o)) o.
 
@@ -311,7 +312,7 @@ Section Step.
   Proof.
     intros Hsk Hst Htr Hren Hdp HF.
     destruct (model_let s toks Htoks Htrace v e' te rest i Hsk Hst Hren d Hd Hdp) as (f0 & Hm).
-    exists f0. intros fuel Hf r o. destruct (Hm fuel Hf r o) as (i' & r' & o' & HW & Hrun). clear Hm.
+    intros HLa. exists f0. intros fuel Hf r o. destruct (Hm fuel Hf r o) as (i' & r' & o' & HW & Hrun). clear Hm.
     apply W_off in HW. subst o'. unfold step_result, step_outcome.
     rewrite (ref_let s v e e' Htr p after li st Hrel F HF), Hrun.
     pose proof (den_plain s e e' Htr) as Hp.
@@ -336,7 +337,7 @@ Section Step.
   Proof.
     intros Hsk Htr Hren Hdp HF.
     destruct (model_print s toks Htoks mitems ti rest i Htrace Hsk Hren d Hd Hdp) as (f0 & Hm).
-    exists f0. intros fuel Hf r o. destruct (Hm fuel Hf r o) as (i' & r' & o' & HW & Hrun). clear Hm.
+    intros HLa. exists f0. intros fuel Hf r o. destruct (Hm fuel Hf r o) as (i' & r' & o' & HW & Hrun). clear Hm.
     apply W_off in HW. subst o'. unfold step_result, step_outcome. cbn [exec].
     rewrite (ref_print_items F st s Hrel items mitems Htr HF false []), Hrun.
     pose proof (pden_plain s items mitems Htr false []) as Hp.
@@ -369,7 +370,7 @@ Section Step.
   Proof.
     intros Hsk Hn. cbn [app] in Hsk.
     destruct (skipn_cons_nth _ _ _ _ Hsk) as [H0 Hs1]. destruct (skipn_cons_nth _ _ _ _ Hs1) as [H1 _].
-    exists 1. intros fuel Hf r o. destruct fuel as [|f]; [lia|].
+    intros HLa. exists 1. intros fuel Hf r o. destruct fuel as [|f]; [lia|].
     assert (Hrun : evaluate_statement (S f) d (at_idx s i r o) = goto_line_number n (at_idx s (S (S i)) (S (S r)) o)).
     { cbn [evaluate_statement]. rewrite Hd.
       unfold evaluate_statement_body.
@@ -398,7 +399,7 @@ Section Step.
   Proof.
     intros Hsk Hn Hdepth. cbn [app] in Hsk.
     destruct (skipn_cons_nth _ _ _ _ Hsk) as [H0 Hs1]. destruct (skipn_cons_nth _ _ _ _ Hs1) as [H1 _].
-    exists 1. intros fuel Hf r o. destruct fuel as [|f]; [lia|].
+    intros HLa. exists 1. intros fuel Hf r o. destruct fuel as [|f]; [lia|].
     assert (Hrun : evaluate_statement (S f) d (at_idx s i r o) = gosub_line_number n (at_idx s (S (S i)) (S (S r)) o)).
     { cbn [evaluate_statement]. rewrite Hd.
       unfold evaluate_statement_body.
@@ -432,7 +433,8 @@ Section Step.
         split; [destruct st; reflexivity|].
         split; [intros HT; exact HT|].
         split.
-        { right. left. split; [destruct st; reflexivity|].
+        { right. left. exists after, (mkloc (loc_line (loc s)) (i + length [TGosub; TNumber x])).
+          split; [destruct st; reflexivity|]. split; [|exact HLa].
           cbn [stack set_stack set_loc set_breakpoint]. change (stack (at_idx s (S (S i)) (S (S r)) o)) with (stack s).
           change (loc (at_idx s (S (S i)) (S (S r)) o)) with (mkloc (loc_line (loc s)) (S (S i))).
           cbn [length]. replace (i + 2) with (S (S i)) by lia. reflexivity. }
@@ -451,7 +453,7 @@ Section Step.
     steps_as SReturn i [TReturn].
   Proof.
     intros Hsk Hnil Hcons. cbn [app] in Hsk. destruct (skipn_cons_nth _ _ _ _ Hsk) as [H0 _].
-    exists 1. intros fuel Hf r o. destruct fuel as [|f]; [lia|].
+    intros HLa. exists 1. intros fuel Hf r o. destruct fuel as [|f]; [lia|].
     assert (Hrun : evaluate_statement (S f) d (at_idx s i r o) = return_to_last_gosub (at_idx s (S i) (S r) o)).
     { cbn [evaluate_statement]. rewrite Hd.
       unfold evaluate_statement_body.
@@ -500,9 +502,10 @@ Section Step.
 
   Lemma for_enter_sim v from to step j ts i r o :
     j = i + length ts -> Forall2 lsame (r_loops st) (loops s) ->
+    L after (mkloc (loc_line (loc s)) (i + length ts)) ->
     step_outcome (for_enter v from to step after (line_no p li) st) i ts (start_loop v from to step (at_idx s j r o)) o.
   Proof.
-    intros Hj HL.
+    intros Hj HL HLa.
     pose proof (keep_rel lsame v _ _ HL (fun _ _ H => proj1 H)) as Hk. apply Forall2_len in Hk.
     unfold for_enter, start_loop.
     destruct (remove_loop_at v j r o) as (x & Hrm). erewrite bind_ok by exact Hrm. clear Hrm x.
@@ -526,7 +529,8 @@ Section Step.
         split; [intros HT; apply (typed_set s _ v (VNum from) HT Etm); reflexivity|].
         split; [left; split; [destruct st; reflexivity | reflexivity]|].
         split.
-        { right. left. exists v, to, step. split; [destruct st; reflexivity|].
+        { right. left. exists v, to, step, after, (mkloc (loc_line (loc s)) (i + length ts)).
+          split; [destruct st; reflexivity|]. split; [|exact HLa].
           cbn [loops set_loops set_variables]. rewrite Hj. reflexivity. }
         split; [exists []; split; [destruct st; cbn; rewrite app_nil_r; reflexivity | cbn; rewrite app_nil_r; reflexivity]|].
         left. split; [reflexivity|]. cbn. rewrite Hj. reflexivity.
@@ -573,7 +577,7 @@ Section Step.
       { intros t Ht. destruct Hrest as [->|(tr0 & ->)].
         - rewrite (skipn_nil_nth _ _ Hs6) in Ht. discriminate.
         - destruct (skipn_cons_nth _ _ _ _ Hs6) as [Hc _]. rewrite Hc in Ht. inversion Ht. reflexivity. }
-      exists (S (S (fa + fb))). intros fuel Hf r o. destruct fuel as [|f]; [lia|].
+      intros HLa. exists (S (S (fa + fb))). intros fuel Hf r o. destruct fuel as [|f]; [lia|].
       destruct (Hfa f ltac:(lia) (S (S (S r))) o) as (i1 & r1 & o1 & Hev1 & Hi1 & HW1). apply W_off in HW1. subst o1.
       destruct (Hfb f ltac:(lia) (S r1) o) as (i2 & r2 & o2 & Hev2 & Hi2 & HW2). apply W_off in HW2. subst o2.
       assert (Hrun : evaluate_statement (S f) d (at_idx s i r o) =
@@ -616,7 +620,7 @@ Section Step.
       + rewrite (ref_expr_is_den b b' st s F Hb (same_store_reads _ _ Hrel) HFb).
         destruct (den s b') as [[sb|to]|er l|pp| |]; cbn [plain conv fail_at] in *; try contradiction.
         * unfold step_outcome. fail_branch.
-        * apply (for_enter_sim v from to f64_one jb); [|exact HL].
+        * apply (for_enter_sim v from to f64_one jb); [|exact HL|exact HLa].
           cbn [length]. rewrite !app_length. cbn [length]. rewrite app_nil_r. unfold jb, ja. lia.
         * unfold step_outcome. destruct er; try contradiction; destruct l; try contradiction; fail_branch.
       + unfold step_outcome. destruct er; try contradiction; destruct l; try contradiction; fail_branch.
@@ -626,7 +630,7 @@ Section Step.
       destruct (expr_sem_at s toks Htoks c' tc Hrc (S d) (S jb) rest Hs7 Hstop2 Hdc) as (fc & Hfc).
       set (jc := S jb + length tc) in *.
       pose proof (den_plain s c c' Hc) as Hpc.
-      exists (S (S (fa + fb + fc))). intros fuel Hf r o. destruct fuel as [|f]; [lia|].
+      intros HLa. exists (S (S (fa + fb + fc))). intros fuel Hf r o. destruct fuel as [|f]; [lia|].
       destruct (Hfa f ltac:(lia) (S (S (S r))) o) as (i1 & r1 & o1 & Hev1 & Hi1 & HW1). apply W_off in HW1. subst o1.
       destruct (Hfb f ltac:(lia) (S r1) o) as (i2 & r2 & o2 & Hev2 & Hi2 & HW2). apply W_off in HW2. subst o2.
       destruct (Hfc f ltac:(lia) (S r2) o) as (i3 & r3 & o3 & Hev3 & Hi3 & HW3). apply W_off in HW3. subst o3.
@@ -683,7 +687,7 @@ Section Step.
         * rewrite (ref_expr_is_den c c' st s F Hc (same_store_reads _ _ Hrel) HFc).
           destruct (den s c') as [[sc|step]|er l|pp| |]; cbn [plain conv fail_at] in *; try contradiction.
           -- unfold step_outcome. fail_branch.
-          -- apply (for_enter_sim v from to step jc); [|exact HL].
+          -- apply (for_enter_sim v from to step jc); [|exact HL|exact HLa].
              repeat (cbn [length]; rewrite ?app_length). unfold jc, jb, ja. lia.
           -- unfold step_outcome. destruct er; try contradiction; destruct l; try contradiction; fail_branch.
         * unfold step_outcome. destruct er; try contradiction; destruct l; try contradiction; fail_branch.
@@ -698,7 +702,7 @@ Section Step.
   Proof.
     intros Hsk HL HT. cbn [app] in Hsk.
     destruct (skipn_cons_nth _ _ _ _ Hsk) as [H0 Hs1]. destruct (skipn_cons_nth _ _ _ _ Hs1) as [H1 _].
-    exists 1. intros fuel Hf r o. destruct fuel as [|f]; [lia|].
+    intros HLa. exists 1. intros fuel Hf r o. destruct fuel as [|f]; [lia|].
     assert (Hrun : evaluate_statement (S f) d (at_idx s i r o) = end_loop v (at_idx s (S (S i)) (S (S r)) o)).
     { cbn [evaluate_statement]. rewrite Hd.
       unfold evaluate_statement_body.
@@ -745,7 +749,7 @@ Section Step.
         split; [left; split; [destruct st; reflexivity | reflexivity]|].
         split.
         { right. right. exists v, lp, kept, k, lm. split; [exact Ed|]. split; [exact Ef|]. split; [exact Hnth|].
-          left. split; [destruct st; reflexivity|]. repeat split; reflexivity. }
+          left. split; [destruct st; reflexivity|]. reflexivity. }
         split; [exists []; split; [destruct st; cbn; rewrite app_nil_r; reflexivity | cbn; rewrite app_nil_r; reflexivity]|].
         right. right. right. right. exists v, lp, kept, k, lm. repeat split; try reflexivity; assumption.
     - (* the loop is over *)
@@ -761,7 +765,7 @@ Section Step.
         split; [left; split; [destruct st; reflexivity | reflexivity]|].
         split.
         { right. right. exists v, lp, kept, k, lm. split; [exact Ed|]. split; [exact Ef|]. split; [exact Hnth|].
-          right. split; [destruct st; reflexivity|]. split; reflexivity. }
+          right. split; [destruct st; reflexivity|]. reflexivity. }
         split; [exists []; split; [destruct st; cbn; rewrite app_nil_r; reflexivity | cbn; rewrite app_nil_r; reflexivity]|].
         left. split; [reflexivity|]. cbn. f_equal. lia.
   Qed.
@@ -772,7 +776,7 @@ Section Step.
     steps_as SRem i [TRemark b].
   Proof.
     intros Hsk. cbn [app] in Hsk. destruct (skipn_cons_nth _ _ _ _ Hsk) as [H0 _].
-    exists 1. intros fuel Hf r o. destruct fuel as [|f]; [lia|].
+    intros HLa. exists 1. intros fuel Hf r o. destruct fuel as [|f]; [lia|].
     unfold step_result, step_outcome. cbn [exec].
     cbn [evaluate_statement]. rewrite Hd.
     unfold evaluate_statement_body.
@@ -793,7 +797,7 @@ Section Step.
     steps_as SEnd i [TEnd].
   Proof.
     intros Hsk Himm. cbn [app] in Hsk. destruct (skipn_cons_nth _ _ _ _ Hsk) as [H0 _].
-    exists 1. intros fuel Hf r o. destruct fuel as [|f]; [lia|].
+    intros HLa. exists 1. intros fuel Hf r o. destruct fuel as [|f]; [lia|].
     unfold step_result, step_outcome. cbn [exec]. split; [reflexivity|].
     cbn [evaluate_statement]. rewrite Hd.
     unfold evaluate_statement_body.
@@ -819,7 +823,7 @@ Section Step.
     pose proof (skipn_app_len _ _ _ _ Hs1) as Hs2.
     destruct (skipn_cons_nth _ _ _ _ Hs2) as [H2 Hs3]. destruct (skipn_cons_nth _ _ _ _ Hs3) as [H3 Hs4].
     set (j := S i + length tc) in *.
-    exists (S (S (S (S fe)))). intros fuel Hf r o. destruct fuel as [|f]; [lia|].
+    intros HLa. exists (S (S (S (S fe)))). intros fuel Hf r o. destruct fuel as [|f]; [lia|].
     destruct (Hfe f ltac:(lia) (S r) o) as (i1 & r1 & o1 & Hev & Hi1 & HW1). apply W_off in HW1. subst o1.
     unfold step_result, step_outcome. cbn [exec]. unfold RefSem.ev.
     rewrite (ref_expr_is_den c c' st s F Htr (same_store_reads _ _ Hrel) HF).
@@ -1167,6 +1171,7 @@ Section StepIf.
     exists n ts, loc_line l = Some n /\ toks_get n (st_toks s) = Some ts /\ nth_error ts (loc_idx l) <> Some TElse.
   Hypothesis Hland_calls : forall fr, In fr (stack s) -> lands_ok (fr_ret fr).
   Hypothesis Hland_loops : forall lp, In lp (loops s) -> lands_ok (lp_loc lp).
+  Variable L : rpc -> location -> Prop.
   Variable d : nat.
   Hypothesis Hd : Nat.eqb d max_nesting = false.
   Variables (li : nat) (after : rpc) (st : rstate).
@@ -1192,15 +1197,15 @@ Section StepIf.
   Qed.
 
   Lemma outcome_bump out i ts s' o :
-    step_outcome p s toks li after st out i ts (Ok tt, s') o ->
-    step_outcome p s toks li after st out i ts (Ok tt, bump s') o.
+    step_outcome p s toks L li after st out i ts (Ok tt, s') o ->
+    step_outcome p s toks L li after st out i ts (Ok tt, bump s') o.
   Proof.
     unfold step_outcome. destruct out as [pc st'|st'|er line st'|]; [| | |exact (fun H => H)].
     - intros (s2 & E & K & SS & FR & TY & CS & LS & OUT & LOC). inversion E; subst s2.
       exists (bump s'). split; [reflexivity|]. split; [exact K|]. split; [exact SS|]. split; [exact FR|].
       split; [exact TY|]. split; [exact CS|]. split; [exact LS|]. split; [exact OUT | exact LOC].
-    - intros (E0 & s2 & E & K & L & IM & O). inversion E; subst s2.
-      split; [exact E0|]. exists (bump s'). split; [reflexivity|]. split; [exact K|]. split; [exact L|].
+    - intros (E0 & s2 & E & K & LC & IM & O). inversion E; subst s2.
+      split; [exact E0|]. exists (bump s'). split; [reflexivity|]. split; [exact K|]. split; [exact LC|].
       split; [exact IM | exact O].
     - intros (_ & _ & ie & s2 & E & _). discriminate.
   Qed.
@@ -1208,8 +1213,8 @@ Section StepIf.
   (* the ELSE probe behind a THEN clause that has run *)
   Lemma after_nested out i ts (m : M unit) x o rest :
     skipn (i + length ts) toks = rest -> (rest = [] \/ exists tr, rest = TColon :: tr) ->
-    step_outcome p s toks li after st out i ts (m x) o ->
-    step_outcome p s toks li after st out i ts ((m ;;; else_probe) x) o.
+    step_outcome p s toks L li after st out i ts (m x) o ->
+    step_outcome p s toks L li after st out i ts ((m ;;; else_probe) x) o.
   Proof.
     intros Hsk Hrest H. unfold bind. destruct (m x) as [[[]|e l|pp| |] s'] eqn:Em; try exact H.
     assert (Hprobe : else_probe s' = (Ok tt, bump s')).
@@ -1241,7 +1246,7 @@ Section StepIf.
   Qed.
 
   Lemma outcome_shift out i ts i2 ts2 run o : i + length ts = i2 + length ts2 ->
-    step_outcome p s toks li after st out i ts run o -> step_outcome p s toks li after st out i2 ts2 run o.
+    step_outcome p s toks L li after st out i ts run o -> step_outcome p s toks L li after st out i2 ts2 run o.
   Proof. intros E. unfold step_outcome. rewrite E. exact (fun H => H). Qed.
 
   (* IF c THEN <statement> *)
@@ -1249,10 +1254,10 @@ Section StepIf.
     skipn i toks = (TIf :: tc ++ TThen :: tn) ++ rest -> (rest = [] \/ exists tr, rest = TColon :: tr) ->
     tr c = Some c' -> Renders 0 c' tc -> S d + pdepth c' < max_nesting -> xsize c <= F ->
     tn = t0 :: tn' -> (forall x, t0 <> TNumber x) -> forallb plain_tok tn = true ->
-    steps_as F p s toks (S d) li after st stmt (S (S i + length tc)) tn ->
-    steps_as F p s toks d li after st (SIf c (AStmt stmt) None) i (TIf :: tc ++ TThen :: tn).
+    steps_as F p s toks L (S d) li after st stmt (S (S i + length tc)) tn ->
+    steps_as F p s toks L d li after st (SIf c (AStmt stmt) None) i (TIf :: tc ++ TThen :: tn).
   Proof.
-    intros Hsk Hrest Htr Hren Hdp HF Etn Hnum Hplain (fn & Hn).
+    intros Hsk Hrest Htr Hren Hdp HF Etn Hnum Hplain Hn HLa.
     cbn [app] in Hsk. rewrite <- app_assoc in Hsk. cbn [app] in Hsk.
     destruct (skipn_cons_nth _ _ _ _ Hsk) as [H0 Hs1].
     destruct (expr_sem_at s toks Htoks c' tc Hren (S d) (S i) (TThen :: tn ++ rest) Hs1 eq_refl Hdp) as (fe & Hfe).
@@ -1267,6 +1272,7 @@ Section StepIf.
       pose proof (skipn_all_length toks (S j) _ Hs3 Hne) as Hl. rewrite app_length in Hl. lia. }
     assert (Hsum : S j + length tn = i + length (TIf :: tc ++ TThen :: tn)).
     { cbn [length]. rewrite app_length. cbn [length]. unfold j. lia. }
+    destruct Hn as (fn & Hn); [rewrite Hsum; exact HLa|].
     exists (S (S (fe + fn + length tn + 3))). intros fuel Hf r o. destruct fuel as [|f]; [lia|].
     destruct (Hfe f ltac:(lia) (S r) o) as (i1 & r1 & o1 & Hev & Hi1 & HW1). apply (W_off s Hwarn) in HW1. subst o1.
     unfold step_result. cbn [exec]. unfold RefSem.ev.
@@ -1567,7 +1573,7 @@ Section Program.
     Inv s -> fst (cur_tokens s) = Ok toks -> same_store st s -> calls_rel st s -> loops_rel st s -> typed s ->
     Nat.eqb d max_nesting = false ->
     skipn i toks = ts ++ rest -> (rest = [] \/ exists tr, rest = TColon :: tr) ->
-    SRen F d rest stmt ts -> steps_as F p s toks d li after st stmt i ts.
+    SRen F d rest stmt ts -> steps_as F p s toks (pcloc (st_toks s)) d li after st stmt i ts.
   Proof.
     intros HI Htoks Hrel Hcr Hlr Hty Hd Hsk Hrest HS.
     pose proof (i_trace s HI) as Htr. pose proof (i_warn s HI) as Hw.
@@ -1576,23 +1582,23 @@ Section Program.
                     |d rest c c' tc n x H1 H2 H3 H4 H5
                     |d rest v a a' ta b b' tb stp tstep A1 A2 A3 A4 B1 B2 B3 B4 HC|d rest v|d rest b0
                     |d rest c c' tc stmt tn H1 H2 H3 H4 H5 H6 IH]; intros i Hd Hsk Hrest.
-    - eapply (step_let F p s toks Htoks Htr Hw d Hd li after st Hrel v e e' te rest i); eassumption.
-    - eapply (step_print F p s toks Htoks Htr Hw d Hd li after st Hrel items mitems ti rest i); eassumption.
-    - eapply (step_goto F p s toks Htoks Htr Hw (Inv_jump s HI) d Hd li after st Hrel n x rest i); eassumption.
-    - eapply (step_gosub F p s toks Htoks Htr Hw (Inv_jump s HI) d Hd li after st Hrel n x rest i);
+    - eapply (step_let F p s toks Htoks Htr Hw (pcloc (st_toks s)) d Hd li after st Hrel v e e' te rest i); eassumption.
+    - eapply (step_print F p s toks Htoks Htr Hw (pcloc (st_toks s)) d Hd li after st Hrel items mitems ti rest i); eassumption.
+    - eapply (step_goto F p s toks Htoks Htr Hw (Inv_jump s HI) (pcloc (st_toks s)) d Hd li after st Hrel n x rest i); eassumption.
+    - eapply (step_gosub F p s toks Htoks Htr Hw (Inv_jump s HI) (pcloc (st_toks s)) d Hd li after st Hrel n x rest i);
         [exact Hsk | exact H1 | apply calls_depth; exact Hcr].
-    - eapply (step_return F p s toks Htoks Htr Hw d Hd li after st Hrel rest i); [exact Hsk | apply calls_nil; exact Hcr |].
+    - eapply (step_return F p s toks Htoks Htr Hw (pcloc (st_toks s)) d Hd li after st Hrel rest i); [exact Hsk | apply calls_nil; exact Hcr |].
       intros pc cr E. destruct (calls_cons st s pc cr Hcr E) as (fr & rs & A & B & _). exists fr, rs. split; assumption.
-    - eapply (step_end F p s toks Htoks Htr Hw d Hd li after st rest i); [exact Hsk | apply (i_imm s HI)].
-    - eapply (step_if F p s toks Htoks Htr Hw (Inv_jump s HI) (Inv_heads s HI) d Hd li after st Hrel c c' tc n x rest i);
+    - eapply (step_end F p s toks Htoks Htr Hw (pcloc (st_toks s)) d Hd li after st rest i); [exact Hsk | apply (i_imm s HI)].
+    - eapply (step_if F p s toks Htoks Htr Hw (Inv_jump s HI) (Inv_heads s HI) (pcloc (st_toks s)) d Hd li after st Hrel c c' tc n x rest i);
         eassumption.
-    - eapply (step_for F p s toks Htoks Htr Hw d Hd li after st Hrel v a a' ta b b' tb stp tstep rest i); try eassumption.
+    - eapply (step_for F p s toks Htoks Htr Hw (pcloc (st_toks s)) d Hd li after st Hrel v a a' ta b b' tb stp tstep rest i); try eassumption.
       apply loops_lsame. exact Hlr.
-    - eapply (step_next F p s toks Htoks Htr Hw d Hd li after st Hrel v rest i); [exact Hsk | apply loops_lsame; exact Hlr | exact Hty].
-    - eapply (step_rem F p s toks Htoks Htr Hw d Hd li after st Hrel b0 rest i). exact Hsk.
+    - eapply (step_next F p s toks Htoks Htr Hw (pcloc (st_toks s)) d Hd li after st Hrel v rest i); [exact Hsk | apply loops_lsame; exact Hlr | exact Hty].
+    - eapply (step_rem F p s toks Htoks Htr Hw (pcloc (st_toks s)) d Hd li after st Hrel b0 rest i). exact Hsk.
     - destruct (SRen_head _ _ _ _ _ H6) as (t0 & tn' & Etn & Hnum).
       apply (step_if_stmt F p s toks Htoks Htr Hw (Inv_lines s HI) (calls_land st s Hcr) (loops_land st s Hlr)
-               d Hd li after st Hrel c c' tc stmt tn t0 tn' rest i Hsk Hrest H1 H2 H3 H4 Etn Hnum (SRen_plain _ _ _ _ _ H6)).
+               (pcloc (st_toks s)) d Hd li after st Hrel c c' tc stmt tn t0 tn' rest i Hsk Hrest H1 H2 H3 H4 Etn Hnum (SRen_plain _ _ _ _ _ H6)).
       apply IH; [exact H5| |exact Hrest].
       cbn [app] in Hsk. rewrite <- app_assoc in Hsk. cbn [app] in Hsk.
       destruct (skipn_cons_nth _ _ _ _ Hsk) as [_ Hs1].
@@ -1639,7 +1645,17 @@ Section Program.
     destruct Hsplit as (stmt & rs & ts & rest & Hst & -> & HS & Hrest).
     destruct (skipn_cons_nth _ _ _ _ Hst) as [Hnth Hrs].
     assert (Hrest' : rest = [] \/ exists tr', rest = TColon :: tr') by (destruct Hrest as [[-> _]|(tr' & -> & _)]; eauto).
-    destruct (sren_steps s toks li (li, S si) st 0 stmt ts rest i HI Htoks Hrel Hcr Hlr Hty eq_refl Hsk Hrest' HS) as (f0 & Hstep).
+    (* where a RETURN to this statement lands *)
+    assert (Hafter0 : pcloc (st_toks s) (li, S si) (mkloc (loc_line (loc s)) (i + length ts))).
+    { pose proof (skipn_app_len _ _ _ _ Hsk) as Hsk0.
+      exists n, stmts, toks. cbn [fst snd loc_line loc_idx].
+      split; [exact Hp|]. split; [exact Ht|]. split; [exact Hl|].
+      destruct Hrest as [[-> ->]|(tr' & -> & HL')].
+      - right. split; [exact Hsk0|].
+        assert (Hz : length (skipn si stmts) = 1) by (rewrite Hst; reflexivity).
+        rewrite skipn_length in Hz. lia.
+      - left. exists tr'. split; [exact Hsk0|]. rewrite Hrs. exact HL'. }
+    destruct (sren_steps s toks li (li, S si) st 0 stmt ts rest i HI Htoks Hrel Hcr Hlr Hty eq_refl Hsk Hrest' HS Hafter0) as (f0 & Hstep).
     destruct (SRen_nonempty _ _ _ _ _ HS) as (t & ts' & Ets & _).
     assert (Hnt : nth_error (cur_toks s) (loc_idx (loc s)) = Some t).
     { rewrite Hct. fold i. rewrite Ets in Hsk. cbn [app] in Hsk. apply (skipn_cons_nth _ _ _ _ Hsk). }
@@ -1661,30 +1677,22 @@ Section Program.
       { rewrite Ho2, Ho1, Hout, map_app, app_assoc. reflexivity. }
       assert (Ht' : toks_get n (st_toks s') = Some toks) by (rewrite K1; exact Ht).
       pose proof (skipn_app_len _ _ _ _ Hsk) as Hsk'.
-      (* where a RETURN to this statement lands *)
-      assert (Hafter : pcloc (st_toks s') (li, S si) (mkloc (loc_line (loc s)) (i + length ts))).
-      { exists n, stmts, toks. cbn [fst snd loc_line loc_idx].
-        split; [exact Hp|]. split; [exact Ht'|]. split; [exact Hl|].
-        destruct Hrest as [[-> ->]|(tr' & -> & HL')].
-        - right. split; [exact Hsk'|].
-          assert (Hz : length (skipn si stmts) = 1) by (rewrite Hst; reflexivity).
-          rewrite skipn_length in Hz. lia.
-        - left. exists tr'. split; [exact Hsk'|]. rewrite Hrs. exact HL'. }
+      assert (Hafter : pcloc (st_toks s') (li, S si) (mkloc (loc_line (loc s)) (i + length ts))) by (rewrite K1; exact Hafter0).
       assert (Hcr' : calls_rel st' s').
       { destruct Hcr as [A B]. split; [congruence|].
-        destruct CS as [[E1 E2]|[[E1 E2]|(fr & rs0 & cr & E1 & E2 & E3 & E4 & _)]].
+        destruct CS as [[E1 E2]|[(pc0 & l0 & E1 & E2 & E3)|(fr & rs0 & cr & E1 & E2 & E3 & E4 & _)]].
         - rewrite E1, E2, K1. exact B.
-        - rewrite E1, E2, rev_unit. constructor; [split; [reflexivity | exact Hafter]|]. rewrite K1. exact B.
+        - rewrite E1, E2, rev_unit, K1. constructor; [split; [reflexivity | exact E3]|]. exact B.
         - rewrite E4, E2, K1. rewrite E3, E1, rev_unit in B. inversion B; assumption. }
       assert (Hlr' : loops_rel st' s').
       { unfold loops_rel in *. rewrite K1.
-        destruct LS as [[E1 E2]|[(v & to & step & E1 & E2)|(v & lp & kept & k & lm & E1 & E2 & E3 & E4)]].
+        destruct LS as [[E1 E2]|[(v & to & step & pc0 & l0 & E1 & E2 & E5)|(v & lp & kept & k & lm & E1 & E2 & E3 & E4)]].
         - rewrite E1, E2. exact Hlr.
         - rewrite E1, E2. apply Forall2_app; [apply keep_rel; [exact Hlr | apply lrel_var]|].
-          constructor; [|constructor]. repeat split; try reflexivity. cbn [rl_body lp_loc]. rewrite <- K1. exact Hafter.
+          constructor; [|constructor]. repeat split; try reflexivity. exact E5.
         - pose proof (drop_find _ v _ _ Hlr (lrel_var _)) as D. rewrite E1, E2 in D.
           destruct D as (lm' & D1 & D2 & D3). rewrite E3 in D1. inversion D1; subst lm'.
-          destruct E4 as [(A & B & _ & _)|(A & B & _)]; rewrite A, B; [|exact D3].
+          destruct E4 as [(A & B)|(A & B)]; rewrite A, B; [|exact D3].
           apply Forall2_app; [exact D3 | constructor; [exact D2 | constructor]]. }
       destruct Hloc as [[-> Hloc]|[(n' & li' & stmts' & -> & Hp' & Hloc)|[[-> Hloc]|[(fr & rs0 & cr & E1 & E2 & Hloc)
                         |(v & lp & kept & k & lm & E1 & E2 & E3 & -> & Hloc)]]]].
